@@ -141,6 +141,27 @@ func c10Docs(thorough bool) []c10Doc {
 		c = append(c, []byte("startxref\n9\n%%EOF\n")...)
 		add("broken-startxref-objstm-repair", c)
 	}
+	// the xref section parses but every offset is a few bytes short (as after a text-mode transfer that changed the
+	// line ends): readable only through the offset repair that runs while objects are dereferenced (second stage)
+	for _, shift := range []int{3, 7} {
+		sb := mk(nSmall).Bytes()
+		if i := bytes.LastIndex(sb, []byte("\nxref\n")); i > 0 {
+			c := append([]byte{}, sb...)
+			lines := bytes.Split(c[i:], []byte("\n"))
+			pos := i
+			for _, ln := range lines {
+				if len(ln) == 19 && bytes.HasSuffix(ln, []byte(" n ")) {
+					var off int
+					fmt.Sscanf(string(ln[:10]), "%d", &off)
+					if off > shift {
+						copy(c[pos:pos+10], []byte(fmt.Sprintf("%010d", off-shift)))
+					}
+				}
+				pos += len(ln) + 1
+			}
+			add(fmt.Sprintf("offsets-short-by-%d-second-stage-repair", shift), c)
+		}
+	}
 	fx := GetFixtures()
 	add("encrypted", fx.Files["enc.pdf"])
 	ds[len(ds)-1].conf = func() *model.Configuration { c := relaxed(); c.UserPW, c.OwnerPW = "upw", "opw"; return c }
